@@ -11,7 +11,9 @@ expression mirror QF/Core/Eval.lean and the faithful `Drop`/`Copy` mirrors of QF
 `constFirst` and `execute` always passes (column, constant); (2) its `eval` drops the temp column whenever
 `!contains f c` (without `&& c != dst`); (3) its `dropCols` has no `checkColumns`.  Eval.lean is not edited.
 Corrected variants, following the current /repo/expression.go and `QFrame.Eval`, are defined here: `Ex'`,
-`newExpr'`, `execColConst`, `execute'`, `evalEpilogue`, `eval'`; they use `C08.drop` / `C08.copy`.  The leaf
+`newExpr'`, `execColConst`, `execute'`, `evalEpilogue`, `missing`, `eval'`; they use `C08.drop` / `C08.copy`.  `eval'` has the
+guard of the repaired `QFrame.Eval`: `missingCol(expr, qf)` — a column reference that is not a column of the frame `Eval` is
+called on is an error before anything is executed (`missing`, `missing_eq_find`).  The leaf
 functions `execConst`, `execUnary`, `execColCol` and `tempColName` of Eval.lean agree with the current Go code
 and are used as they are.
 
@@ -604,9 +606,57 @@ def execute' (ctx : Ctx) : Ex' → Frame → Frame × String
       (drop z.1 (dropList f [x.2, y.2]), z.2)
   | .error, f => if f.err.isSome then (f, "") else ({ f with err := some .other }, "")
 
-/-- `QFrame.Eval` (current Go code) -/
+/-- column names an expression refers to, left to right -/
+def refs : Ex' → List String
+  | .col n => [n]
+  | .const _ => []
+  | .unary _ s => [s]
+  | .colConst _ s _ _ => [s]
+  | .colCol _ a b => [a, b]
+  | .ex1 _ e => refs e
+  | .ex2 _ l r => refs l ++ refs r
+  | .error => []
+
+/-- expression.go `missingCol` (current Go code): the column fields of the struct are collected and the first one that is
+    not a column of the frame is returned; nested expressions are searched operand by operand, left before right;
+    constants and the error expression refer to no column -/
+def missing : Ex' → Frame → Option String
+  | .col n, f => [n].find? fun c => !contains f c
+  | .const _, _ => none
+  | .unary _ s, f => [s].find? fun c => !contains f c
+  | .colConst _ s _ _, f => [s].find? fun c => !contains f c
+  | .colCol _ a b, f => [a, b].find? fun c => !contains f c
+  | .ex1 _ e, f => missing e f
+  | .ex2 _ l r, f => match missing l f with
+    | some c => some c
+    | none => missing r f
+  | .error, _ => none
+
+/-- `missingCol` returns the first reference, in left-to-right order, that is not a column of the frame -/
+theorem missing_eq_find (e : Ex') (f : Frame) : missing e f = (refs e).find? fun c => !contains f c := by
+  induction e with
+  | ex1 op e ih => simpa [missing, refs] using ih
+  | ex2 op l r ihl ihr =>
+    simp only [missing, refs, List.find?_append, ihl, ihr]
+    cases (refs l).find? fun c => !contains f c <;> rfl
+  | _ => rfl
+
+theorem missing_none_iff (e : Ex') (f : Frame) : missing e f = none ↔ ∀ n, n ∈ refs e → (f.byName n).isSome = true := by
+  rw [missing_eq_find, List.find?_eq_none]
+  constructor
+  · intro h n hn
+    have := h n hn
+    cases hb : f.byName n with
+    | none => simp [contains, hb] at this
+    | some c => rfl
+  · intro h n hn
+    simp [contains, h n hn]
+
+/-- `QFrame.Eval` (current Go code): a frame with an error is returned as it is; a column reference that is not a column of
+    the frame is an error before anything is executed -/
 def eval' (ctx : Ctx) (f : Frame) (dst : String) (e : Ex') : Frame :=
   if f.err.isSome then f else
+  if (missing e f).isSome then withErr f .other else
   evalEpilogue f dst (execute' ctx e f).1 (execute' ctx e f).2
 
 /-! ## 6. every expression: `execute'` leaves `f` plus at most one temporary -/
@@ -1016,8 +1066,16 @@ theorem eval'_bookkeeping (ctx : Ctx) (f : Frame) (L : Nat) (wf : WF f L) (u : U
     rw [this, he] at h
     cases h
   | none =>
+    have hm : (missing e f).isSome = false := by
+      cases hm : (missing e f).isSome with
+      | false => rfl
+      | true =>
+        exfalso
+        have : eval' ctx f dst e = withErr f .other := by simp [eval', he, hm]
+        rw [this] at h
+        cases h
     have hev : eval' ctx f dst e = evalEpilogue f dst (execute' ctx e f).1 (execute' ctx e f).2 := by
-      simp [eval', he]
+      simp [eval', he, hm]
     rw [hev] at h ⊢
     obtain ⟨mid, E, hlen, hnm⟩ := execute'_shape ctx e f L wf u he hL hlt (evalEpilogue_err_none _ _ _ _ h)
     match mid, E, hlen, hnm with
